@@ -226,6 +226,82 @@ pub fn build(tier: Tier) -> Check<'static> {
         }));
     }
     {
+        // `resetall does not touch text macros (IEEE 22.3): sources whose descriptions share macros
+        let templates: Vec<(&'static str, Vec<(&'static str, Option<&'static str>)>)> = vec![
+            ("`define W 8\n{R}module a; wire [`W-1:0] x; endmodule\n{R}module b; wire [`W-1:0] y; endmodule\n{R}", vec![]),
+            ("`define F\n{R}module a; endmodule\n{R}`ifdef F\nmodule f; wire f; endmodule\n`else\nmodule s; wire s; endmodule\n`endif\n{R}", vec![]),
+            ("{R}module a; wire [`W-1:0] x; endmodule\n{R}`ifndef G\nmodule g; endmodule\n`endif\n{R}", vec![("W", Some("4")), ("G", None)]),
+            ("`ifndef GUARD\n`define GUARD\nmodule once; endmodule\n`endif\n{R}`ifndef GUARD\n`define GUARD\nmodule twice; endmodule\n`endif\n{R}module c; endmodule\n", vec![]),
+            ("`define M(x) wire x;\nmodule a; `M(p) endmodule\n{R}`undef M\n`define M(x) reg x;\n{R}module b; `M(q) endmodule\n{R}", vec![]),
+            ("`begin_keywords \"1364-2001\"\n`define L logic\nmodule a; reg `L; endmodule\n{R}module b; wire `L; endmodule\n`end_keywords\n{R}module c; `L v; endmodule\n", vec![]),
+        ];
+        let inserts: Vec<String> = std::iter::once("`resetall\n".to_string()).chain(FORMS.iter().map(|f| format!("`resetall{}{}", if f.starts_with(|c: char| c.is_ascii_whitespace() || c == '/') { "" } else { " " }, f))).collect();
+        let ni = inserts.len();
+        let n = templates.len() * 8 * ni;
+        c.parts.push(Part::new("resetall-and-macros", n as u64, "6 sources whose descriptions share text macros (object-like, function-like, redefined, include-guard style, caller-supplied, inside a keyword region) x every non-empty subset of their 2-3 inter-description positions x `resetall followed by a line end or one of the 16 trivia forms: same acceptance and tree as without", move |i, acc| {
+            let i = i as usize;
+            let (tpl, pre) = &templates[i / (8 * ni)];
+            let mask = (i / ni) % 8;
+            let ins = &inserts[i % ni];
+            let slots = tpl.matches("{R}").count();
+            if mask == 0 || mask >= (1 << slots) {
+                return;
+            }
+            let mut k = 0;
+            let mut src = String::new();
+            let mut plain = String::new();
+            for piece in tpl.split("{R}") {
+                src.push_str(piece);
+                plain.push_str(piece);
+                if k < slots {
+                    if mask & (1 << k) != 0 {
+                        src.push_str(ins);
+                        // a form that does not end its line would share the line with the next directive
+                        if !ins.ends_with('\n') {
+                            src.push('\n');
+                        }
+                    }
+                    k += 1;
+                }
+            }
+            let defs = api::mk_defs(&pre.iter().map(|(a, b)| (*a, *b)).collect::<Vec<_>>());
+            let run = |t: &str| api::parse_sv_str(t, std::path::Path::new("top.sv"), &defs, &[] as &[std::path::PathBuf], false, false);
+            acc.transitions += 2;
+            acc.traces += 1;
+            acc.distinct(fnv(src.as_bytes()));
+            let case = json!({"source": src, "without_resetall": plain, "predefined": pre.iter().map(|(a, b)| format!("{}={:?}", a, b)).collect::<Vec<_>>()});
+            let want = match run(&plain) {
+                Ok(Ok((t, _))) => strip_resetall(&tree::skeleton_nows(&t)),
+                _ => {
+                    acc.violation(None, case, "internal: the template without `resetall is not accepted".into());
+                    return;
+                }
+            };
+            let ff = ins.contains('\u{c}');
+            match run(&src) {
+                Ok(Ok((t, _))) => {
+                    let got = strip_resetall(&tree::skeleton_nows(&t));
+                    if got != want {
+                        acc.class("violation");
+                        acc.violation(None, case, format!("`resetall between descriptions changed the tree\nwithout: {}\nwith:    {}\nsource: {:?}", clip(&want, 500), clip(&got, 500), src));
+                    } else {
+                        acc.class("same-tree");
+                    }
+                }
+                Ok(Err(e)) => {
+                    acc.class("violation");
+                    // (form feed: the known finding, recognised by the same source with blanks instead)
+                    let sig = if ff && matches!(run(&src.replace('\u{c}', " ")), Ok(Ok((ref t, _))) if strip_resetall(&tree::skeleton_nows(t)) == want) { Some("form-feed-not-accepted-as-white-space".to_string()) } else { None };
+                    acc.violation(sig, case, format!("rejected ({}) after placing `resetall between descriptions\nsource: {:?}", api::err_sig(&e), src));
+                }
+                Err(p) => {
+                    acc.class("violation");
+                    acc.violation(None, case, format!("panic {}", p));
+                }
+            }
+        }));
+    }
+    {
         // keyword reservation must survive `resetall / any neutral trivia: rejected programs stay rejected
         let probes: Vec<&'static str> = vec![
             "module module; endmodule\n",
